@@ -210,7 +210,10 @@ def opGen (_ : Json) : Json :=
   Json.mkObj [("merge_complete", Spec.C14.globalMergeComplete),
               ("merge_missing", jStrs Spec.C14.globalMergeMissing),
               ("global_options", jStrs Gen.globalOptions), ("merged_options", jStrs Gen.mergedOptions),
-              ("model_merged", jStrs (mergedOptions.map GlobalOpt.name))]
+              ("model_merged", jStrs (mergedOptions.map GlobalOpt.name)),
+              ("model_options", jStrs (GlobalOpt.all.map GlobalOpt.name)),
+              ("unmodelled_options", jStrs (Gen.globalOptions.filter fun o =>
+                  !(GlobalOpt.all.map GlobalOpt.name).contains o))]
 
 end Cfg
 
